@@ -339,7 +339,7 @@ impl<READ: Read> StreamingDecoder<READ> {
                 Ok(_) => { /*Nothing to do*/ }
                 Err(e) => {
                     let err;
-                    
+                    ();
                     {
                         err = Error::other(e);
                     }
